@@ -37,10 +37,10 @@ def run(chk):
         if v:
             chk.violation(v["sig"], v["desc"], dict(kind="panic"))
             return
-        raise vlib.MachineryError("C01 driver produced no result:\n" + t["out"][-3000:])
+        raise vlib.driver_failed("C01 driver produced no result", t["out"])
     r1 = json.load(open(resf))
     if t["rc"] != 0:
-        raise vlib.MachineryError("C01 driver failed:\n" + t["out"][-3000:])
+        raise vlib.driver_failed("C01 driver failed", t["out"])
     for v in r1["violations"] or []:
         chk.violation(v["sig"], v["desc"], dict(kind="c01", detail=v))
     tl = [l for l in open(os.path.join(wd, "c01_trace.ndjson")).read().splitlines() if l.strip()]
